@@ -256,6 +256,13 @@ def moments(S, d, rounds, constant_model):
     S.prove(sym_and(V[0] >= 0, V[1] >= 0), 'moments:variance-non-negative')
     if constant_model:
         S.prove(sym_and(S.eq(E[0], k), S.eq(V[0], 0)), 'moments:constant-model')
+    # reading the statistics is an observation: asking again (same combined moments, no re-evaluation in between) gives the same numbers,
+    # and the combined moments themselves are left as they were
+    res_before = [x for x in np.ravel(op.get_result())]
+    (E2, V2) = op.calculate_expectation_and_variance(sa)
+    S.prove(sym_and(*([S.eq(x, y) for x, y in zip(E, list(E2))] + [S.eq(x, y) for x, y in zip(V, list(V2))])), 'moments:asking-twice-gives-the-same-expectation-and-variance')
+    res_after = [x for x in np.ravel(op.get_result())]
+    S.prove(sym_and(*[S.eq(x, y) for x, y in zip(res_before, res_after)]), 'moments:reading-the-statistics-leaves-the-combined-moments-unchanged')
 
 
 # ---------------------------------------------------------------------------------------------------
